@@ -22,7 +22,7 @@ BUDGET = {'quick': 100, 'thorough': 1500}
 MIN_NONTRIVIAL = {'quick': 500, 'thorough': 5000}
 TECHNIQUE = 'exhaustive enumeration of small tag stacks + Hypothesis-generated deep stacks, independent identifier parser'
 
-NUMS = [0, 1, 30, 31, 127, 128, 16383, 16384, 2 ** 32]
+NUMS = [0, 1, 30, 31, 127, 128, 16383, 16384, 2 ** 21 - 1, 2 ** 21, 2 ** 32, 2 ** 64, 2 ** 133 - 1, 2 ** 133, 2 ** 200]
 NUMS_SMALL = [0, 30, 31, 127, 128, 2 ** 32]
 CLASSES = ['A', 'C', 'P']
 
@@ -174,6 +174,24 @@ def run_case(case):
     except x690.RefError as r:
         F('identifiers', 'unparsable', '%s %s | enc=%s' % (r.kind, r.msg, enc.hex()[:120]))
         return fails
+    # the guiding type decides the tags: a value object of the untagged twin type (same fields, no tags), and the plain Python
+    # tree, encoded with asn1Spec=T carry T's identifier octets
+    T0 = dict(ir.from_jsonable(ir.to_jsonable(T)), tags=[])
+    if case.get('pair'):
+        T0['comps'] = [dict(c, t=dict(c['t'], tags=[])) for c in T0['comps']]
+    try:
+        o0 = build.value_from(build.schema(T0), T0, v)
+    except Exception:
+        o0 = None
+    if o0 is not None:
+        for codec in ('BER', 'DER'):
+            g = lib.encode(codec, o0, asn1Spec=sch)
+            want = enc if codec == 'DER' else lib.encode(codec, obj).value
+            if not g.ok:
+                F('guided', 'raises', '%s.encode(value of the untagged twin, asn1Spec=T) %s' % (codec.lower(), g.brief()), g.sig)
+            elif g.value != want:
+                F('guided', 'bytes', '%s.encode(value of the untagged twin, asn1Spec=T)=%s, encode(value of T)=%s' % (
+                    codec.lower(), g.value.hex()[:120], (want or b'').hex()[:120]))
     # accepted by the type itself
     d = lib.decode('BER', enc, sch)
     if not d.ok:
